@@ -96,6 +96,9 @@ pub enum Layout {
     Sliced,
     /// payload under every null slot is an adversarial value instead of the type default
     Garbage,
+    /// offset 0 but shorter than the buffers: one more copy of the last row (so that a run-end array is
+    /// cut inside its last run) and one adversarial row follow, then `slice(0, len)`
+    Truncated,
 }
 impl Layout {
     pub fn name(&self) -> &'static str {
@@ -103,12 +106,14 @@ impl Layout {
             Layout::Compact => "compact",
             Layout::Sliced => "sliced",
             Layout::Garbage => "garbage-under-nulls",
+            Layout::Truncated => "truncated",
         }
     }
     pub fn parse(s: &str) -> Layout {
         match s {
             "sliced" => Layout::Sliced,
             "garbage-under-nulls" => Layout::Garbage,
+            "truncated" => Layout::Truncated,
             _ => Layout::Compact,
         }
     }
@@ -512,6 +517,14 @@ pub fn realise(dt: &DataType, rows: &[V], layout: Layout) -> ArrayRef {
             all.push(g);
             let a = build(dt, &all, false);
             a.slice(2, rows.len())
+        }
+        Layout::Truncated => {
+            let g = garbage_value(dt);
+            let mut all = rows.to_vec();
+            all.push(rows.last().cloned().unwrap_or_else(|| g.clone()));
+            all.push(if matches!(dt, DataType::Null) { V::Null } else { g });
+            let a = build(dt, &all, false);
+            a.slice(0, rows.len())
         }
     }
 }
